@@ -4,7 +4,7 @@ properties listed in RELATED) against a scratch worktree with the patch applied 
 record which checks report a VIOLATION in meta.json ("detected_by") and write seeded/README.md."""
 import json, os, re, subprocess, sys
 ROOT = "/verif"
-RELATED = {"C01": ["C11"], "C02": ["C04"], "C04": ["C02"], "C05": ["C11"], "C06": ["C02"], "C07": ["C13"], "C11": ["C13", "C03"], "C09": ["C08"], "C10": ["C08", "C06", "C09"], "C12": ["C11", "C20", "C17"], "C17": ["C18"], "C18": ["C17", "C20"], "C20": ["C06", "C13"]}
+RELATED = {"C01": ["C11"], "C02": ["C04"], "C03": ["C13"], "C04": ["C02"], "C05": ["C11"], "C06": ["C02"], "C07": ["C13"], "C11": ["C13", "C03"], "C09": ["C08"], "C10": ["C08", "C06", "C09"], "C12": ["C11", "C20", "C17"], "C17": ["C18"], "C18": ["C17", "C20"], "C20": ["C06", "C13"]}
 
 def run(cmd, **kw):
     return subprocess.run(cmd, shell=True, stdout=subprocess.PIPE, stderr=subprocess.STDOUT, text=True, **kw)
